@@ -184,6 +184,11 @@ def class_issues(term):
             for _, vt in node[3]:
                 if vt[0] == 'class' and (vt[1].get('opts') or {}).get('out_format') == 'tuple':
                     issues.add('internal-tag-with-tuple-out-variant')
+                cls = vt[1].get('_cls') if vt[0] == 'class' else None
+                if cls is not None:
+                    for f in cls.__pane_info__.fields:
+                        if f.name == node[1] and f.out_name != node[1]:
+                            issues.add('internal-tag-field-renamed')
         if node[0] == 'union':
             for m in node[1]:
                 while m[0] == 'cond':
@@ -191,6 +196,20 @@ def class_issues(term):
                 if m[0] == 'tagged' and m[2] != 'internal':
                     issues.add('wrapped-tagged-inside-untagged-union')
     return issues
+
+
+CAUSES = ['internal-tag-with-tuple-out-variant', 'internal-tag-field-renamed', 'wrapped-tagged-inside-untagged-union',
+          'D9:tuple-out-with-kw-only-field', 'D10:class-rename-with-field-aliases', 'out_name-not-accepted']
+
+
+def known_cause(term, issues=None, wrapped=True):
+    issues = class_issues(term) if issues is None else issues
+    for k in CAUSES:
+        if k in issues and (wrapped or k != 'wrapped-tagged-inside-untagged-union'):
+            return k.split(':')[-1]
+    if overlapping_union(term):
+        return 'overlapping-union'
+    return None
 
 
 def monitor_factory(into_items):
@@ -223,19 +242,7 @@ def monitor_factory(into_items):
                              'explicit-asymmetric-in_names', 'tuple-out-with-noninit-field'}
             if skip:
                 return out
-            sig_extra = None
-            if 'internal-tag-with-tuple-out-variant' in issues:
-                sig_extra = 'internal-tag-with-tuple-out-variant'
-            elif 'wrapped-tagged-inside-untagged-union' in issues:
-                sig_extra = 'wrapped-tagged-inside-untagged-union'
-            elif 'D9:tuple-out-with-kw-only-field' in issues:
-                sig_extra = 'tuple-out-with-kw-only-field'
-            elif 'D10:class-rename-with-field-aliases' in issues:
-                sig_extra = 'class-rename-with-field-aliases'
-            elif 'out_name-not-accepted' in issues:
-                sig_extra = 'out_name-not-accepted'
-            elif overlapping_union(c.term):
-                sig_extra = 'overlapping-union'
+            sig_extra = known_cause(c.term, issues)
             try:
                 y = pane.from_data(d, T)
             except ConvertError as e:
